@@ -122,6 +122,7 @@ func (s *memoryStore) AddAccountBalance(account store.Account, credit *big.Int) 
 
 	balance := s.balances[account]
 	balance.Credit.Add(&balance.Credit, credit)
+	balance.Account = account
 	s.balances[account] = balance
 	return nil
 }
